@@ -142,24 +142,22 @@ def main(tier):
                 run.count("acting-stream.calls", len(calls))
         # ---------- (2e) a stream parser that refills ONE groups buffer on every match: each compiled operand keeps the groups it was matched with
         sg, sgm = [], []
-        for tpl in ("{A} + {B}", "[{A}, {B}, {A}]", "{A} * {B} - {A}", "x = {A}; y = {B}; x + y", "func fn(pa){ pa + {B} }; fn({A})", "{A} ? {B} : {A}", "`{{A}}-{{B}}`"):
-            a1, a2, b1, b2 = (r.randint(0, 99) for _ in range(4))
+        for tpl, order in (("{A} + {B}", "AB"), ("[{A}, {B}, {A}]", "ABA"), ("{A} * {B} - {A}", "ABA"), ("x = {A}; y = {B}; x + y", "AB"),
+                           ("func fn(pa){ pa + {B} }; fn({A})", "AB"), ("{A} ? {B} : {A}", "AB"), ("`{{A}}-{{B}}`", "AB"), ("{B} - {A} + {B}", "BAB")):
+            a1, a2, b1, b2 = (r.randint(1, 99) for _ in range(4))
             A, B = f"C{a1}T{a2}", f"C{b1}T{b2}"
-            sg.append(f"custom -,L30000 {1:032x} spgroups {hx(tpl.replace('{A}', A).replace('{B}', B))}")
-            sgm.append((tpl.replace('{A}', A).replace('{B}', B), {A: (a1, a2), B: (b1, b2)}))
-        for (src, terms), o in zip(sgm, go_child(line_timeout=20).run(sg)):
+            src = tpl.replace('{A}', A).replace('{B}', B)
+            sg.append(f"custom -,L30000 {1:032x} spgroups {hx(src)}")
+            want = [f"spgroups|{A}\x1f{a1}\x1f{a2}" if ch == "A" else f"spgroups|{B}\x1f{b1}\x1f{b2}" for ch in order]
+            sgm.append((src, want))
+        for (src, want), o in zip(sgm, go_child(line_timeout=20).run(sg)):
             run.evaluations += 1
             run.count("groups-buffer.cases")
             m = re.search(r" calls=(\S+)", o)
             calls = unhx(m.group(1)).decode("utf-8", "replace").split("\x1e") if m and m.group(1) != "-" else []
-            bad = []
-            for c in calls:
-                f_ = c.split("|", 1)[1].split("\x1f") if "|" in c else []
-                if len(f_) != 3 or f_[0] not in terms or (int(f_[1]), int(f_[2])) != terms[f_[0]]:
-                    bad.append(c)
-            if bad or not calls:
+            if calls != want:
                 run.violation("handler-received-another-operand's-groups", {"source": src, "registered": "stream parser C<d>T<d> reusing its groups buffer",
-                                                                             "calls": calls, "implementation": o[:400]})
+                                                                             "calls": calls, "expected_calls": want, "implementation": o[:400]})
             else:
                 run.nontriv(("spgroups", src))
         # ---------- (2f) a load hook that RENAMES (strips the prefix 困难): the program with prefixed names means what the program with the
